@@ -117,13 +117,19 @@ class SandboxNativeTracer(SandboxBasicTracer):
         self.call_stack = []
         self.lines = []
         self.old_tracer = None
+        self._old_tracers = []
         self.step_index = 1
 
     def __enter__(self):
+        # The same tracer is re-entered when student code imports another student file,
+        # so remember one previous trace function per level.
         self.old_tracer = sys.gettrace()
+        self._old_tracers.append(self.old_tracer)
         sys.settrace(self.tracer)
 
     def __exit__(self, exc_type, exc_val, traceback):
+        if self._old_tracers:
+            self.old_tracer = self._old_tracers.pop()
         sys.settrace(self.old_tracer)
 
     def is_tracked_file(self, frame):
